@@ -327,6 +327,14 @@ func NewTransactionFromBytes(b []byte) (*Transaction, error) {
 		return nil, errors.New("additional data after the transaction")
 	}
 	tx.size = len(b)
+	// Hash and size are defined by the canonical encoding, while the decoder
+	// accepts non-minimal length prefixes and non-canonical booleans as well.
+	if canon := tx.Bytes(); !bytes.Equal(canon, b) {
+		tx.size = len(canon)
+		if err := tx.createHash(); err != nil {
+			return nil, err
+		}
+	}
 	return tx, nil
 }
 
